@@ -124,7 +124,7 @@ Section ormap_laws.
     - apply U_assoc; assumption.
     - destruct (NB N2) as [Eb Ec]. rewrite Eb, Ec. simpl. destruct (vcore <$> m_vals a !! k); reflexivity.
     - destruct (NA N1) as [Ea Eb]. rewrite Ea, Eb. simpl. destruct (vcore <$> m_vals c !! k); reflexivity.
-    - destruct (NA N1) as [Ea Eb]. destruct (NB N2) as [_ Ec]. rewrite Ea, Eb, Ec. reflexivity.
+    - destruct (NA N1) as [Ea Eb]. destruct (NB N2) as [_ Ec]. rewrite Ea, Ec. reflexivity.
   Qed.
 
   (* the key set itself is an ORSet: its laws are unconditional for well-formed maps *)
